@@ -93,7 +93,44 @@ def tsan(drv):
     return 0 if r.returncode == 0 else 2
 
 
+def valgrind(drv, runs=150):
+    """cross-check for reads of uninitialised memory (which ASan does not report): a plain build of the
+    simulator under valgrind memcheck, a few hundred plans of the families that allocate most"""
+    drv.ensure_built([("plain", "A"), ("plain", "B")])
+    os.makedirs(os.path.join(drv.BUILD, "scratch"), exist_ok=True)
+    outdir = tempfile.mkdtemp(prefix="vg-", dir=os.path.join(drv.BUILD, "scratch"))
+    seed = int(os.environ.get("VERIF_SEED", "4242"))
+    jobs = []
+    for cfg in ("A", "B"):
+        for family, mode, n in (("hist", "free", runs), ("hist", "faultrand", runs), ("xfer", "any", runs),
+                                ("xfer", "anyfault", runs), ("xfer", "mpcorrupt", 6), ("sink", "json", 40), ("sink", "mp", 40)):
+            per = max(1, n // 4)
+            for lo in range(0, n, per):
+                jobs.append((cfg, family, mode, lo, min(n, lo + per)))
+
+    def work(j):
+        cfg, family, mode, lo, hi = j
+        cmd = ["valgrind", "-q", "--error-exitcode=9", "--track-origins=no", "--undef-value-errors=yes",
+               drv.binary_path("plain", cfg), "batch", family, mode, str(seed), str(lo), str(hi), outdir, "0", "3"]
+        r = subprocess.run(cmd, stdout=subprocess.PIPE, stderr=subprocess.PIPE)
+        return j, r.returncode, r.stdout.decode("latin-1"), r.stderr.decode("latin-1")
+
+    bad = 0
+    t0 = time.time()
+    with cf.ThreadPoolExecutor(max_workers=int(os.environ.get("VERIF_JOBS", "16"))) as ex:
+        for j, rc, out, err in ex.map(work, jobs):
+            done = re.search(r"DONE runs=(\d+)", out)
+            if rc != 0 or not done:
+                bad += 1
+                print("[valgrind] %s: exit %d\n%s" % (j, rc, "\n".join(err.split("\n")[:25])))
+    print("[valgrind] %d batches (%s runs each family/config) in %.0fs: %s" %
+          (len(jobs), runs, time.time() - t0, "no report" if not bad else "%d batches with reports" % bad))
+    return 2 if bad else 0
+
+
 def run(what, drv):
+    if what == "valgrind":
+        return valgrind(drv)
     if what == "determinism":
         return determinism(drv)
     if what == "tsan":
